@@ -208,7 +208,7 @@ def observe(case: dict) -> dict:
         func = SHARED[nd["fn"]] if nd["fn"] else recording_callable(label, nd["nout"], list(nd["yvals"]))
         args, kwargs = [item(a) for a in nd["args"]], {k: item(v) for k, v in nd["kwargs"]}
         if nd["onames"]:        # a hand-built node: graph.Node with the payload tuple, outputs as the author wrote them
-            node = BaseNode(f"h{j}", [nd["onames"][i - 1] for i in nd["odecl"]], (func, args, kwargs),
+            node = BaseNode(nd["hname"] or f"h{j}", [nd["onames"][i - 1] for i in nd["odecl"]], (func, args, kwargs),
                             **{Node.input_name(k): i for k, i in enumerate(inputs)})
         else:
             node = Node(Payload(func, args, kwargs), inputs, num_outputs=nd["nout"])
